@@ -148,3 +148,11 @@ package schema
 //@   in schema.(UnixSecondSerializer).Value
 //@   min-sites 1
 //@   assert tests-the-pointer-itself: ref(arg0.ptr) == serializedValuePtr [C03]
+
+//@ # ---------- C20: a named check keeps its whole expression ----------
+//@ # `check:name,expr`: everything after the first comma is the expression (it may contain commas itself).
+//@ site named-check-expression-rejoined
+//@   match call strings.Join
+//@   in schema.(*Schema).ParseCheckConstraints
+//@   min-sites 1
+//@   assert rejoined-with-the-comma-it-was-split-on: arg1 == "," [C20]
